@@ -273,7 +273,7 @@ func monitor(c hxlib.Case, outs []string) (vs []hxlib.Violation) {
 			if h := findHook(f[1]); h != nil && o == "ok" {
 				h.active = false
 			}
-		case "drain":
+		case "drain", "drain1":
 			if o == "-" {
 				break
 			}
